@@ -2,7 +2,7 @@
     the covered set.  Statements only. *)
 From Coq Require Import List NArith ZArith QArith Lia.
 From MOC.Base Require Import RangeSet.
-From MOC.Model Require Import Qty Query QueryBS Repr Mom FracBS.
+From MOC.Model Require Import Qty Query QueryBS Repr Mom FracBS IntersectsE.
 Import ListNotations.
 Open Scope N_scope.
 
@@ -116,6 +116,13 @@ Theorem C03_fraction_numerator_binary_search : forall l a b, Canon l -> a < b ->
   width_bs l a b = width l a b.
 Proof. exact width_bs_spec. Qed.
 
+(** the MOC x MOC overlap test AS WRITTEN (BorrowedRanges::intersects: quick rejection, binary search
+    on the starts of the operand that begins first with Err(i) => i - 1, two-way skipping loop) answers
+    true exactly when some index is covered by both operands *)
+Theorem C03_intersects_as_written : forall l r, Canon l -> Canon r ->
+  (intersects_e l r = true <-> exists x, cov l x /\ cov r x).
+Proof. exact intersects_e_spec. Qed.
+
 Print Assumptions C03_contains_val.
 Print Assumptions C03_contains_range.
 Print Assumptions C03_intersects_range.
@@ -136,3 +143,4 @@ Print Assumptions C03_mom_fraction_bounds.
 Print Assumptions C03_mom_filter.
 Print Assumptions C03_mom_key_decoding.
 Print Assumptions C03_fraction_numerator_binary_search.
+Print Assumptions C03_intersects_as_written.
